@@ -122,6 +122,14 @@ func c10Gen(tape *simrt.Tape, tier string) *c10Case {
 			sc.ExitNonZero = true
 		}
 	}
+	if tape.Bool(1, 5, "inprocess") {
+		// a peer behind the in-process seam: not killable, bounded parallelism
+		sc.InProcess = 1 + tape.Choose(3, "parallelism")
+		if sc.Fault == cfCut || sc.Fault == cfPremature {
+			sc.Fault = cfNone
+		}
+		sc.ExitAfterRead, sc.StopReadingAt, sc.IgnoreEOF = -1, -1, false
+	}
 	c.Script = sc
 	c.Fault = cfNames[sc.Fault]
 	c.LateSend = tape.Bool(1, 2, "latesend")
